@@ -21,7 +21,7 @@
      later of the two first stamps.
    - C04_untimed: the whole visitor, for the untimed fragment, computes rhoZ. *)
 From Coq Require Import List ZArith Lia.
-From RV Require Import Val Syntax Rho Dense DenseSem DenseMerge DenseMergeCorrect DenseEval DenseEvalCorrect ExtZ.
+From RV Require Import Val Syntax Rho Dense DenseSem DenseMerge DenseMergeCorrect DenseEval DenseEvalCorrect DenseEvalMain ExtZ.
 Import ListNotations.
 Local Open Scope Z_scope.
 
@@ -46,7 +46,7 @@ Proof. exact (fun VS f s1 s2 out => isect_start f s1 s2 out). Qed.
 Print Assumptions C04_merge_starts_at_common_domain.
 
 (* the visitors of the untimed fragment (variables, constants, arithmetic, comparisons, Boolean operators, unbounded
-   once / historically / eventually / always): the list they build (model DenseEval.deval, compared list-for-list
+   once / historically / since / eventually / always / until): the list they build (model DenseEval.deval, compared list-for-list
    with evaluate() by the check) is strictly increasing, starts at the start of the domain of the formula and denotes
    the tick semantics there.  SubNeg: the comparison visitors compute -(l - r) where the semantics says r - l. *)
 Theorem C04_untimed :
@@ -69,6 +69,12 @@ Example C04_untimed_nonvacuous :
   let W : list (@dsig ExtZVal) := [[(0, Fin 3); (4, Fin 1); (9, Fin 5)]; [(2, Fin 2); (4, Fin 2); (6, Fin 0)]] in
   let p : @formula ExtZVal := Alw (Or (Pred CGeq (Var 0) (Const (Fin 2))) (Once (Pred CLt (Var 1) (Var 0)))) in
   untimed p = true /\ deval ExtZArith p W = Some [(2, Fin 1); (9, Fin 5)].
+Proof. cbv zeta. split; vm_compute; reflexivity. Qed.
+
+Example C04_untimed_since_until_nonvacuous :
+  let W : list (@dsig ExtZVal) := [[(0, Fin 3); (4, Fin 1); (9, Fin 5)]; [(2, Fin 2); (4, Fin 2); (6, Fin 0)]] in
+  let p : @formula ExtZVal := Until (Pred CGeq (Var 0) (Const (Fin 2))) (Since (Var 1) (Pred CLt (Var 1) (Var 0))) in
+  untimed p = true /\ deval ExtZArith p W = Some [(2, Fin 1); (4, Fin (-1)); (9, Fin 0)].
 Proof. cbv zeta. split; vm_compute; reflexivity. Qed.
 
 Example C04_nonvacuous :
